@@ -24,8 +24,8 @@ Qed.
 
 Lemma take_str_some t l s tl : take_str t l = Some (s, tl) -> exists r, l = r :: tl /\ rtype r = t /\ s = strip_nul (payload r).
 Proof.
-  unfold take_str. destruct l as [|r l0]; [discriminate|]. destruct (is_rec t 6 r) eqn:E; [|discriminate].
-  intros [= <- <-]. exists r. apply is_rec_true in E. tauto.
+  unfold take_str. destruct l as [|r l0]; [discriminate|]. destruct (is_rec t 6 r && no_nulb (strip_nul (payload r))) eqn:E; [|discriminate].
+  intros [= <- <-]. exists r. apply andb_prop in E. destruct E as [E _]. apply is_rec_true in E. tauto.
 Qed.
 
 Lemma take_endel_some l tl : take_endel l = Some tl -> exists r, l = r :: tl /\ rtype r = 17.
@@ -33,6 +33,9 @@ Proof.
   unfold take_endel. destruct l as [|r l0]; [discriminate|]. destruct (rtype r =? 17) eqn:E; [|discriminate].
   intros [= <-]. exists r. apply N.eqb_eq in E. auto.
 Qed.
+
+Lemma take_xy1_some l x : take_xy1 l = Some x -> take_xy l = Some x.
+Proof. unfold take_xy1. destruct l as [|r l]; [discriminate|]. destruct (8 <=? plen r); [auto|discriminate]. Qed.
 
 (* ------------------------------------------------------------------ ignored records *)
 Lemma step_other f st r : kind_of (rtype r) = KOther -> step_gds f st r = SCont st.
@@ -267,7 +270,8 @@ Proof.
   destruct (opt1 15 3 4 l3) as [ow l4] eqn:H4.
   destruct (opt1 48 3 4 l4) as [ob l5] eqn:H5.
   destruct (opt1 49 3 4 l5) as [oe l6] eqn:H6.
-  destruct (take_xy l6) as [[pts l7]|] eqn:H7; [|discriminate].
+  destruct (width_ok ow) eqn:Hwok; [|discriminate].
+  destruct (take_xy1 l6) as [[pts l7]|] eqn:H7; [|discriminate]. apply take_xy1_some in H7.
   destruct (take_props [] l7) as [prs l8] eqn:H8.
   destruct (take_endel l8) as [l9|] eqn:H9; [|discriminate].
   intros [= <- <-].
@@ -341,6 +345,7 @@ Proof.
   rewrite (run_take_strans_ref _ _ _ _ _ _ _ _ _ _ _ _ _ _ _ _ _ H2).
   destruct array.
   - destruct (take1 19 2 4 l2) as [[rc l3]|] eqn:H3; [|discriminate].
+    destruct (colrow_ok rc) eqn:Hcr; [|discriminate].
     destruct (take1 16 3 24 l3) as [[rx l4]|] eqn:H4; [|discriminate].
     destruct (take_props [] l4) as [prs l5] eqn:H5.
     destruct (take_endel l5) as [l6|] eqn:H6; [|discriminate].
@@ -382,6 +387,7 @@ Proof.
   destruct (opt1 23 1 2 l2) as [opr l3] eqn:H3.
   destruct (opt1 33 2 2 l3) as [opt_ l4] eqn:H4.
   destruct (opt1 15 3 4 l4) as [ow l5] eqn:H5.
+  destruct (width_ok ow) eqn:Hwok; [|discriminate].
   destruct (take_strans l5) as [[[refl mag] rot] l6] eqn:H6.
   destruct (take1 16 3 8 l6) as [[rx l7]|] eqn:H7; [|discriminate].
   destruct (take_str 25 l7) as [[tx l8]|] eqn:H8; [|discriminate].
@@ -487,6 +493,7 @@ Proof.
   destruct (take1 1 2 24 l1) as [[r1 l2]|] eqn:H1; [|discriminate].
   destruct (take_str 2 l2) as [[nm l3]|] eqn:H2; [|discriminate].
   destruct (take1 3 5 16 (skip_libopt l3)) as [[ru l4]|] eqn:H3; [|discriminate].
+  destruct (units_ok ru) eqn:Huok; [|discriminate].
   destruct (spec_structures (length l4) l4) as [[cs rest]|] eqn:H4; [|discriminate].
   intros [= <-].
   destruct (take1_some _ _ _ _ _ _ H0) as (-> & Ht0 & _).
